@@ -1,6 +1,6 @@
 (* C18 — property theorems only (each closed by `exact <lemma>`, followed by Print Assumptions). *)
 From Coq Require Import List NArith Bool.
-From MW Require Import C16.Model C16.Proofs C17.Proofs C18.Proofs C18.ProofsIds.
+From MW Require Import C16.Model C16.Proofs C17.Proofs C17.ProofsOrder C18.Proofs C18.ProofsIds C18.ProofsInv.
 Import ListNotations.
 Open Scope N_scope.
 
@@ -50,6 +50,83 @@ Theorem C18_wait_immediate : forall s c i ser j,
 Proof. exact wait_done_immediate. Qed.
 Print Assumptions C18_wait_immediate.
 
+(* The restarted state satisfies the queue invariants again.  RGood = Good (C16: Aux, HubOK, Inv) + QS (C17: channel
+   queues sorted) + IdsOK (id2job has one entry per key and every entry (i, x) names an existing job object whose own
+   jobid is i, so distinct ids map to distinct serials and the saved list has no duplicates).  It holds initially, every
+   op of the full alphabet preserves it, and so does Restart = restore (save s): it holds in every state reachable by
+   histories with restarts at arbitrary positions (rrun), in particular in restore (save s) of every reachable s. *)
+Theorem C18_invariant_inductive_with_restarts :
+  RGood init /\ (forall s o, RGood s -> RGood (fst (step s o))) /\ (forall s, RGood s -> RGood (restart s)).
+Proof. exact (conj rgood_init (conj step_rgood restart_rgood)). Qed.
+Print Assumptions C18_invariant_inductive_with_restarts.
+
+Theorem C18_restart_satisfies_invariant : forall h,
+  let s := rrun h init in Inv (restart s) [] [] /\ Aux (restart s) /\ HubOK (restart s) /\ QS (restart s).
+Proof. exact restart_inv. Qed.
+Print Assumptions C18_restart_satisfies_invariant.
+
+(* hence C16's conservation holds for every history with restarts: every accepted unfinished job is in exactly one
+   place, is the job registered under its id, and if queued is queued in its own channel with its own priority *)
+Theorem C18_conservation_with_restarts : forall h x j,
+  let s := rrun h init in
+  getjob (s_jobs s) x = Some j -> j_done j = false ->
+  (in_queues s x + with_workers s x = 1)%nat /\
+  id_lookup (s_ids s) (j_id j) = Some x /\
+  (forall k q p, In (k, q) (s_queues s) -> In (p, x) q -> k = j_chan j /\ p = j_prio j).
+Proof. exact conservation_restarts. Qed.
+Print Assumptions C18_conservation_with_restarts.
+
+(* ... and C17's delivery rules: eligible + never finished + (priority, serial)-minimum first, after any restarts *)
+Theorem C18_delivered_eligible_and_unfinished_with_restarts : forall h o c chs j,
+  In (ODeliver c chs j) (snd (step (rrun h init) o)) ->
+  j_done j = false /\ (chs = [] \/ mem (j_chan j) chs = true).
+Proof. exact delivered_ok_restarts. Qed.
+Print Assumptions C18_delivered_eligible_and_unfinished_with_restarts.
+
+Theorem C18_min_first_with_restarts : forall h c chs j,
+  let s := rrun h init in
+  In (ODeliver c chs j) (snd (step s (StartPull c chs))) ->
+  forall k q p x, q_get (s_queues s) k = Some q -> (chs = [] \/ mem k chs = true) -> In (p, x) q ->
+  is_done (s_jobs s) x = false -> key_lt (p, x) (j_prio j, j_serial j) = false.
+Proof. exact min_first_restarts. Qed.
+Print Assumptions C18_min_first_with_restarts.
+
+(* "Unfinished jobs (including ones a worker had pulled but not finished) are pullable again in the same
+   priority/FIFO order": in restore (save s), for any s reachable with the full alphabet and earlier restarts, what a
+   pull hands out at once is unfinished and not larger, in the order (priority, serial) the jobs had BEFORE the restart
+   (records are restored verbatim, restart_job_table), than any job that was registered in id2job and unfinished before
+   the restart on a requested channel - whether it was queued, in a hand-off mailbox or held by a worker; and the pull
+   blocks only when there was no such job. *)
+Theorem C18_pullable_again_in_order : forall s c chs j, RGood s ->
+  let s' := restart s in
+  In (ODeliver c chs j) (snd (step s' (StartPull c chs))) ->
+  j_done j = false /\
+  forall i x jx, id_lookup (s_ids s) i = Some x -> getjob (s_jobs s) x = Some jx -> j_done jx = false ->
+    (chs = [] \/ mem (j_chan jx) chs = true) -> key_lt (j_prio jx, x) (j_prio j, j_serial j) = false.
+Proof. exact restart_pull_in_order. Qed.
+Print Assumptions C18_pullable_again_in_order.
+
+Theorem C18_pull_after_restart_blocks_only_when_empty : forall s c chs, RGood s ->
+  let s' := restart s in
+  In OBlocked (snd (step s' (StartPull c chs))) ->
+  forall i x jx, id_lookup (s_ids s) i = Some x -> getjob (s_jobs s) x = Some jx ->
+    (chs = [] \/ mem (j_chan jx) chs = true) -> j_done jx = true.
+Proof. exact restart_pull_blocks_only_when_empty. Qed.
+Print Assumptions C18_pull_after_restart_blocks_only_when_empty.
+
+Theorem C18_reachable_with_restarts_is_RGood : forall h, RGood (rrun h init).
+Proof. exact rreachable_rgood. Qed.
+Print Assumptions C18_reachable_with_restarts_is_RGood.
+
+(* Non-vacuity of the order theorem: see restart_history in ProofsInv.v (4 jobs, 3 channels, one held by a worker,
+   one in a mailbox, restart, then four pulls in (priority, serial) order per channel set). *)
+Example C18_restart_order_example :
+  let s := rrun restart_history init in
+  map (fun c => (c_id c, map snd (c_run c))) (s_conns s) = [(1, [2]); (2, [1]); (3, [3]); (4, [4])] /\
+  s_count s = 4 /\ s_handed s = [4; 3; 1; 2].
+Proof. exact restart_example. Qed.
+Print Assumptions C18_restart_order_example.
+
 (* Non-vacuity: job 1 pulled by worker 1 and job 2 finished, then restart: job 1 is queued again,
    job 2 keeps its result, the counter stays 2, and the next pull after the restart gets job 1. *)
 Example C18_example :
@@ -60,9 +137,18 @@ Example C18_example :
 Proof. vm_compute. repeat split. Qed.
 Print Assumptions C18_example.
 
-(* NOT PROVED (full statement of DESIGN's C18_restart_bisim): for all h1 h2,
+(* NOT PROVED (full statement of DESIGN's C18_restart_bisim): for all h1 and all h2 that use only connection ids
+   not used in h1,
      obs (run h2 (restart (run h1 init))) = obs (run h2 (requeue_running (run h1 init)))
-   where requeue_running disconnects every connection and runs the loop, and obs = outputs of h2 up to
-   counters.  What is proved instead is the state-level characterisation above (for every state, not only
-   reachable ones); that the restarted state again satisfies the C16 invariant (so that all C16/C17 theorems
-   hold for continuations after a restart) is checked by the differential run and the monitors only. *)
+   where requeue_running = Disconnect of every live connection, RunLoop, pending random.choice answers discarded, and
+   obs = outputs of h2 up to the outcome counters in Stats.  What is missing is a simulation relation between the two
+   states and its preservation by all 15 ops: they differ in unobservable parts only - job objects no longer in id2job
+   (finished, by C16's invariant) are absent from the restarted job table but may still sit as stale entries in the
+   other one's heaps, timeoutq holds one entry per re-queue there, dead connection records, counters reset.  What IS
+   proved: the restarted state of every reachable state satisfies all invariants (C18_restart_satisfies_invariant), so
+   every C16/C17 theorem holds for continuations after restarts (C18_*_with_restarts); the record of every registered
+   job is restored verbatim, unfinished ones queued and on the timeout heap (C18_restart_preserves_partial); pulls
+   after the restart come in the pre-restart (priority, serial) order (C18_pullable_again_in_order); ids are not
+   reused (C18_ids_not_reused); waits on finished jobs return at once (C18_wait_immediate).  The equality of
+   continuations itself is covered by the differential run (model with restart vs pickle round trip of the real db at
+   every position) and the monitors. *)
